@@ -324,23 +324,28 @@ def _expr_equal(a: Any, b: Any) -> Optional[bool]:
     # numeric refutation at distinct primes (exact evaluation of the extracted form)
     syms = sorted((x.free_symbols | y.free_symbols), key=lambda s: s.name)
     agree = 0
-    for shift in range(3):
+    tried = 0
+    for shift in range(6):
         m = {}
         for i, s in enumerate(syms):
             p = PRIMES[(i + 3 * shift) % len(PRIMES)]
             if s.is_integer:
                 m[s] = p
             else:
-                m[s] = sp.Rational(p, PRIMES[(i + shift + 5) % len(PRIMES)])
+                q = PRIMES[(i + shift + 5) % len(PRIMES)]
+                # sample both sides of 1 (piecewise forms such as min(x, 1/x))
+                m[s] = sp.Rational(p, q) if shift % 2 == 0 else sp.Rational(max(p, q) * 3, min(p, q))
         try:
             vx = sp.N(x.subs(m), 40)
             vy = sp.N(y.subs(m), 40)
             if vx.is_number and vy.is_number and vx.is_finite and vy.is_finite:
+                tried += 1
                 if abs(vx - vy) > sp.Float("1e-25") * (1 + abs(vx) + abs(vy)):
                     return False
                 agree += 1
         except Exception:
             continue
+    agree = 3 if (agree == tried and tried >= 3) else 0
     if agree == 3:
         try:
             if sp.simplify(sp.expand_log(sp.log(x) - sp.log(y), force=True)) == 0:
